@@ -68,7 +68,7 @@ def gen_history(rng, B=None, ops_len=None):
         elif r < 0.85: ops += [{'op': 'corrupt', 'id': rng.randint(1, B)}, {'op': 'checkbad'}]
         elif r < 0.88: ops.append({'op': 'checkbad'})
         elif r < 0.91: ops.append({'op': 'strandtmp', 'id': rng.randint(1, B)})
-        elif r < 0.95: ops.append({'op': 'reload'})
+        elif r < 0.95: ops.append({'op': 'reload', **({'autoload': False} if rng.random() < 0.3 else {})})
         else: ops.append(dict(sow))           # re-sow, same shape
         ops.append({'op': 'query'})
         if rng.random() < 0.1: ops.append({'op': 'stalequery'})
